@@ -243,11 +243,14 @@ func xLine(c *E2ECase, res *E2EResult, s int) (string, string, bool) {
 		}
 		return strings.Join(out, ",")
 	}
-	var evs []string
+	var evs, puts []string
 	for _, e := range res.Events {
 		t, ok := local[e.Op]
 		if !ok {
 			continue
+		}
+		if e.Class == "idx-put" {
+			puts = append(puts, keyList(append([]int{}, e.PutList...)))
 		}
 		f := 0
 		if e.Fail {
@@ -269,7 +272,12 @@ func xLine(c *E2ECase, res *E2EResult, s int) (string, string, bool) {
 		sg = 1
 	}
 	in := fmt.Sprintf("X %d %s %s %s", sg, keyList(c.PreIndex[s]), strings.Join(specs, ","), strings.Join(evs, " "))
-	obs := fmt.Sprintf("ACC R %s I %s", strings.Join(rs, ","), keyList(res.IndexTagged[s]))
+	// the body of every index PUT (the batch applied to the index that was fetched) is observable too
+	ps := "-"
+	if len(puts) > 0 {
+		ps = strings.Join(puts, ";")
+	}
+	obs := fmt.Sprintf("ACC R %s I %s U %s", strings.Join(rs, ","), keyList(res.IndexTagged[s]), ps)
 	return in, obs, true
 }
 
